@@ -34,6 +34,13 @@ def run(tier, seed):
         gd = vlib.must_hold(vlib.tlc("JsonTypes", "Gen_JsonTypes.cfg", workers=vlib.NCPU, sink=sink, tag="JsonTypes-c06deep", timeout=3000,
                                      defines={"MaxDepth": 4 if thorough else 3, "LeafKinds": jsoncommon.tla_set(sub)}), "shapes (deep)")
         ck.add_mc(gd, "Gen_JsonTypes(for C06, depth %d, kinds %s)" % (4 if thorough else 3, ",".join(sub)))
+        # string literals: every pair (thorough: triple over a subset) of the 37 literal-unit classes of JsonString, well formed or broken
+        gs = vlib.must_hold(vlib.tlc("JsonString", "Gen_JsonStringUnesc.cfg", workers=8, sink=sink, tag="JsonString-c06"), "literal units (2)")
+        ck.add_mc(gs, "Gen_JsonStringUnesc(for C06, 2 units)")
+        if thorough:
+            gs3 = vlib.must_hold(vlib.tlc("JsonString", "Gen_JsonStringUnesc.cfg", workers=8, sink=sink, tag="JsonString-c06-3", timeout=3000,
+                                          defines={"MaxUnits": 3, "UnescUnits": '{"a","r3","x","tr","e_c","e_bs","u_asc","u_hi","u_lo","u_r3","u_sc"}'}), "literal units (3)")
+            ck.add_mc(gs3, "Gen_JsonStringUnesc(for C06, 3 units)")
     # de-duplicate (the heap generator reports each graph once per way of building it)
     seen, out = set(), []
     for line in open(vec):
@@ -49,7 +56,7 @@ def run(tier, seed):
     for cr in rr.crashes:
         ck.violations.append(({"t": "div", "prop": PROP, "api": "process", "want": "no fatal error",
                                "got": "fatal: " + cr["stderr"][:500], "case": {"vector_index": cr["index"], "shard": cr["shard"]}}, 1))
-    ck.triage(rr.divs)
+    ck.triage(rr.divs, rerun=rr.again)
     # open finding F-C06-1: a self-referential map or slice type overflows the stack while its codec is built
     probe = subprocess.run([ck.binary, "c06rectype"], stdout=subprocess.PIPE, stderr=subprocess.PIPE, text=True, env=vlib.GOENV)
     if "stack overflow" in probe.stderr or "goroutine stack exceeds" in probe.stderr:
